@@ -493,6 +493,11 @@ def frontend(ctx, plat_):
     msep = "-" if plat_ == "windows" else ":"
     mac = ctx.choice("mac", [msep.join(["00", "11", "22", "33", "44", "55"]), msep.join(["00", "11", "22"]), ""])
     raw = [("eth0", int(socket.AF_INET), ip, mask, None, None), ("eth0", -1 if plat_ == "windows" else 18, mac, None, None, None)]
+    # further inet records after the first one: a netmask no broadcast can be computed from (non-contiguous, or an IPv6 mask in address
+    # form) and one without a netmask: their broadcast stays None (it is not inherited from the record before)
+    odd = ctx.choice("second_record", [None, ("eth1", int(socket.AF_INET), "172.16.5.9", "255.0.255.0"), ("eth1", int(socket.AF_INET6), "fe80::1", "ffff:ffff:ffff:ffff::"), ("eth1", int(socket.AF_INET), "172.16.5.9", None)])
+    if odd is not None:
+        raw.insert(1, odd + (None, None))
     if hasattr(PL, "net_if_addrs"):
         PL.net_if_addrs = lambda: list(raw)
     lab.answers["net_if_addrs"] = lambda: list(raw)
@@ -505,6 +510,9 @@ def frontend(ctx, plat_):
         ipint = sum(x << s for x, s in zip(a, (24, 16, 8, 0)))
         want = ".".join(str(((ipint | (~maskint & 0xFFFFFFFF)) >> s) & 0xFF) for s in (24, 16, 8, 0))
         ctx.prove(len(v4) == 1 and v4[0].broadcast == want, "windows-broadcast", detail=f"ip={ip} mask={mask} want broadcast {want} got {v4[0].broadcast if v4 else None}")
+    if odd is not None:
+        e1 = got.get("eth1", [])
+        ctx.prove(len(e1) == 1 and e1[0].address == odd[2] and e1[0].netmask == odd[3] and e1[0].broadcast is None, "frontend-addresses", detail=f"second record {odd}: {e1}")
     link = [e for e in ents if e.family == pkg.AF_LINK]
     if mac:
         groups = mac.split(msep)
